@@ -64,7 +64,11 @@ func createArchive(
 func writeDictToArchive(d rel.Dict, w func(string, []byte) (io.Writer, error), parent string) error {
 	for e := d.DictEnumerator(); e.MoveNext(); {
 		k, v := e.Current()
-		name, is := rel.AsString(k.(rel.Set))
+		var name rel.String
+		ks, is := k.(rel.Set)
+		if is {
+			name, is = rel.AsString(ks)
+		}
 		if !is {
 			return errors.Errorf("dict key %v not a string", k)
 		}
